@@ -199,7 +199,18 @@ func (x *Exec) callInner(fr *Frame, st *State, ci ssa.CallInstruction) []string 
 	if r, handled := x.specialCall(fr, st, ci, key, fn, args); handled {
 		return r
 	}
-	if fc, ok := x.db.Funcs[key]; ok && !(fr.contract != nil && fr.contract.Inline[fc.Name]) && !(fn != nil && (x.lemmaInline[fn.Name()] || (x.topC != nil && x.topC.Inline[fn.Name()]))) {
+	// a closure called from the function that defines it is part of that function: a contract on the
+	// closure that promises nothing (it only hosts hooks or scopes obligations for the closure's own
+	// verification) must not turn the call into an opaque one
+	hooksOnly := false
+	if fc, ok := x.db.Funcs[key]; ok && fn != nil && fn.Parent() != nil && len(fc.Ensures) == 0 && !fc.HasMod && len(fc.Effects) == 0 && fc.Trusted == "" {
+		for f := fr.fn; f != nil; f = f.Parent() {
+			if f == fn.Parent() {
+				hooksOnly = true
+			}
+		}
+	}
+	if fc, ok := x.db.Funcs[key]; ok && !hooksOnly && !(fr.contract != nil && fr.contract.Inline[fc.Name]) && !(fn != nil && (x.lemmaInline[fn.Name()] || (x.topC != nil && x.topC.Inline[fn.Name()]))) {
 		if !(x.mode == "lemma" && fn != nil && fn.Blocks != nil && !fc.Extern && fc.Trusted == "") {
 			return x.callByContract(fr, st, ci, fc, fn, args, argTypes, sig)
 		}
@@ -777,7 +788,7 @@ func (x *Exec) appendElemsStruct(st *State, et types.Type, s, add, res, inPlace,
 // ---------- call-site contracts ----------
 
 func (x *Exec) checkCallsites(fr *Frame, st *State, ci ssa.CallInstruction, key string, fn *ssa.Function, args []string, argTypes []types.Type) {
-	if x.mode == "lemma" {
+	if x.mode == "lemma" || x.coveredByOwnUnit(fr) {
 		return
 	}
 	for _, cc := range x.db.Callsites {
